@@ -14,12 +14,14 @@ the exact per-sample values through ScriptedSampler variables, or (LinearCompare
 expression  a*x+b  over a scripted variable x.
 """
 import os
+import re
 from fractions import Fraction
 
 from engine import dump, traces
 
 TOL = {'abs': 0.0001, 'pct': '0.001%', 'zero': 0}
-JIT = 1e-7                       # tolerance / 1000 for the absolute tolerance
+JIT = {'abs': 1e-7, 'pct': 1e-10, 'zero': 0.0}       # tolerance / 1000 (pct: for vectors of norm >= 0.1)
+JIT_TEXT = {'abs': '0.0000001', 'pct': '0.0000000001'}
 DEFAULT_POLICY = {'raised': True, 'detail': 'type', 'suppress': False, 'shapeErrors': True}
 DEFAULT_CFG = {'equals': [1, 1], 'proportional': [1, 2], 'offset': [-1, 1], 'linear': [-1, 1]}
 EVALERR_INPUT = '[1,2,3]+[1,2]'
@@ -34,7 +36,7 @@ def frac_text(n, d):
     return '(%d/%d)' % (f.numerator, f.denominator)
 
 
-def entry_text(z, den, form='plain', jit=0):
+def entry_text(z, den, form='plain', jit=0, tol='abs'):
     re, im = z
     if form == 'isq' and im == 0:
         t = 'i^2+' + frac_text(re + den, den)
@@ -45,13 +47,13 @@ def entry_text(z, den, form='plain', jit=0):
     else:
         t = '(%s+%s*i)' % (frac_text(re, den), frac_text(im, den))
     if jit:
-        t = t + ('+0.0000001' if jit > 0 else '-0.0000001')
+        t = t + ('+' if jit > 0 else '-') + JIT_TEXT[tol]
     return t
 
 
-def value_text(v, form='plain', jit=0):
+def value_text(v, form='plain', jit=0, tol='abs'):
     ent, den, shape = v['ent'], v['den'], v['shape']
-    parts = [entry_text(z, den, form if k == 0 else ('plain' if form == 'isq' else form), jit if k == 0 else 0)
+    parts = [entry_text(z, den, form if k == 0 else ('plain' if form == 'isq' else form), jit if k == 0 else 0, tol)
              for k, z in enumerate(ent)]
     if len(shape) == 0:
         return parts[0]
@@ -108,13 +110,13 @@ def shape_name(shape, detail):
     return 'matrix of shape (rows: %d, cols: %d)' % tuple(shape)
 
 
-def expected_message(policy, exp, got):
-    """documented wording (docs/grading_math/matrix_grader/matrix_grader.md); compared as drift only"""
-    if policy['suppress'] or policy['detail'] == 'none':
+def expected_message(model):
+    """text of Comparers!MessageModel, the documented wording (docs/grading_math/matrix_grader/matrix_grader.md);
+    compared as drift only"""
+    if model['form'] == 'empty':
         return ''
-    d = policy['detail']
-    e, g = shape_name(exp, d), shape_name(got, d)
-    if d == 'type' and e == g:
+    e, g = shape_name(model['exp'], model['form']), shape_name(model['got'], model['form'])
+    if model['same']:
         return 'Expected answer to be a %s, but input is a %s of incorrect shape' % (e, g)
     return 'Expected answer to be a %s, but input is a %s' % (e, g)
 
@@ -164,7 +166,7 @@ def build(case, hints):
         cls = NumericalGrader if hints.get('grader') == 'numerical' else FormulaGrader
     if style == 'lit':
         params = [value_text(v) for v in case['P'][0]]
-        student = value_text(case['S'][0], form, jit)
+        student = value_text(case['S'][0], form, jit, case['tol'])
         if cls is not NumericalGrader:
             cfg['samples'] = 2
     elif style == 'script':
@@ -173,7 +175,7 @@ def build(case, hints):
         params = names
         student = 's'
         sf = {names[i]: ScriptedSampler(script=[value_py(case['P'][s][i]) for s in range(n)]) for i in range(k)}
-        sf['s'] = ScriptedSampler(script=[value_py(case['S'][s], form, JIT * jit if s == 0 else 0.0) for s in range(n)])
+        sf['s'] = ScriptedSampler(script=[value_py(case['S'][s], form, JIT[case['tol']] * jit if s == 0 else 0.0) for s in range(n)])
         cfg.update(variables=names + ['s'], sample_from=sf, samples=n)
     else:                                         # 'expr': LinearComparer, expected 'x', student 'a*x+b' over scripted x
         params = ['x']
@@ -269,6 +271,13 @@ def finding_class(case, hints, allowed, obs):
             m = np.array([[complex(z[0], z[1]) for z in v['ent']] for v in ps])
             if np.linalg.matrix_rank(m) < len(ps) or len(ps) >= len(ps[0]['ent']):
                 return 'span-rank-deficient'
+    if kind == 'cong' and accept in allowed and real and not typed and obs['k'] == 'result' and obs['g'] == [0, 1] \
+            and any(Fraction(ps[0]['ent'][0][0] * ps[1]['den'], ps[0]['den'] * ps[1]['ent'][0][0]).denominator == 1
+                    for ps in case['P']):
+        return 'congruence-wraparound'
+    if kind == 'eigen' and accept in allowed and case['tol'] == 'pct' and obs['k'] == 'result' and obs['g'] == [0, 1] \
+            and all(z == [0, 0] for ps in case['P'] for z in ps[1]['ent']):
+        return 'eigen-zero-eigenvalue-percent-tolerance'
     if kind == 'linear' and obs['k'] == 'result':
         cplx = any(z[1] != 0 for s in range(len(case['S'])) for z in case['S'][s]['ent'] + case['P'][s][0]['ent'])
         if cplx and all(obs['g'][0] * a['g'][1] > a['g'][0] * obs['g'][1] for a in allowed if a['k'] == 'grade'):
@@ -276,7 +285,7 @@ def finding_class(case, hints, allowed, obs):
     return None
 
 
-def signature(case, hints, allowed, obs, rel=None):
+def signature(case, hints, allowed, obs, rel=None, why=None):
     sig = {'comparer': case['kind'], 'tolerance': TOL[case['tol']], 'jitter': case['jit'],
            'params': [[value_text(v) for v in ps] for ps in case['P']],
            'submission': [value_text(s, hints.get('form', 'plain')) for s in case['S']],
@@ -290,7 +299,9 @@ def signature(case, hints, allowed, obs, rel=None):
     if case['policy'] != DEFAULT_POLICY or case['evalerr']:
         sig['policy'] = case['policy']
         sig['evalerr'] = case['evalerr']
-    sig['class'] = finding_class(case, hints, allowed, obs)
+    # the class comes from the specification (Comparers!DeviationClass) when the observation is exactly what the
+    # implementation-shaped model predicts; the python heuristic is only a fallback
+    sig['class'] = why or finding_class(case, hints, allowed, obs)
     return sig
 
 
@@ -350,17 +361,23 @@ def replay_states(states, extra):
         if sample is None or (n % 997 == 0):
             sample = {'comparer': case['kind'], 'params': [value_text(v) for v in case['P'][0]], 'input': obs['input'],
                       'relation': rel, 'allowed': [token_text(a) for a in allowed], 'observed': obs_text(obs)}
+        impl = st['out'].get('impl')
         if not any(matches(obs, a) for a in allowed):
-            bad.append({'sig': signature(case, hints, allowed, obs, rel), 'case': case, 'hints': hints})
+            why = st['out'].get('why')
+            why = why if (why and why != 'none' and impl and matches(obs, impl)) else None
+            bad.append({'sig': signature(case, hints, allowed, obs, rel, why), 'case': case, 'hints': hints})
+        elif impl and not matches(obs, impl) and len(drift) < 3:
+            drift.append('implementation-shaped model (Comparers!ImplOutcome) predicts %s for %s %s / %r, code gave %s' % (
+                token_text(impl), case['kind'], [value_text(v) for v in case['P'][0]], obs['input'], obs_text(obs)))
         elif rel == 'wrongshape' and len(drift) < 3:
-            want = expected_message(case['policy'], exp_shape(case), case['S'][0]['shape'])
+            want = expected_message(st['out']['msg'])
             if obs['msg'] != want:
                 drift.append('shape-mismatch message wording: expected %r, code says %r' % (want, obs['msg']))
     return {'n': n, 'keys': keys, 'bad': bad, 'sample': sample, 'drift': drift, 'config_errors': config_errors}
 
 
 EXPECTED_CLASSES = {
-    'cong': ['cong/member', 'cong/nonmember', 'cong/silent', 'cong/ambiguous'],
+    'cong': ['cong/member', 'cong/nonmember', 'cong/silent'],
     'between': ['between/member', 'between/nonmember', 'between/silent'],
     'eigen': ['eigen/member', 'eigen/nonmember'],
     'span': ['span/member', 'span/nonmember'],
@@ -414,6 +431,19 @@ def run(ctx):
         missing = [k for k in EXPECTED_CLASSES[part] if not classes.get(k)]
         if missing:
             raise Machinery('vacuity: part %s never produced the classes %s' % (part, missing))
+    # ---- does the implementation-shaped model refine the property-level one?  TLC is expected to say no: the
+    #      counterexamples are the design-level defects (explanation only -- never a verdict)
+    design = {}
+    for part in (['between', 'span'] if ctx.quick else ['cong', 'between', 'span', 'linear']):
+        r = ctx.tlc('arrays/MC_Comparers.tla', 'arrays/MC_Comparers_%s_impl.cfg' % part, must_hold=False, timeout=1500)
+        if 'ImplRefines_' in r.violated:
+            m = re.findall(r'why \|-> "([^"]+)"', r.out)
+            design[part] = m[-1] if m else 'counterexample'
+        elif r.ok:
+            design[part] = 'refines'
+        else:
+            raise Machinery('MC_Comparers_%s_impl: %s\n%s' % (part, r.violated, r.out[-2000:]))
+    ctx.extra['implementation_model_vs_property'] = design
     # ---- code -> spec
     n = 4000 if ctx.quick else 48000
     cases = random_cases(ctx.rng, n)
@@ -442,8 +472,8 @@ def run(ctx):
             unguarded += 1
             continue
         obs = dict(r['obs'], msg=r['obs_msg'], input=r['obs_input'])
-        allowed = parse_summary(clause)
-        sig = signature(r, r['hints'], allowed, obs, 'trace')
+        allowed, why = parse_summary(clause)
+        sig = signature(r, r['hints'], allowed, obs, 'trace', why)
         rep.report(sig, {'case': case_of(r), 'hints': r['hints'], 'allowed_text': clause})
     for r in recs[:2]:
         ctx.sample({'trace_record': {'comparer': r['kind'], 'params': [value_text(v) for v in r['P'][0]],
@@ -461,7 +491,6 @@ def run(ctx):
         'numpy primitives (lstsq, norm, %) are trusted; members are exact lattice points, non-members at least 1000 '
         'tolerances from the class (law LawGuard, clause UNGUARDED in the trace spec)',
         'a non-real submission to congruence_comparer / between_comparer may be rejected or raise any student-facing error',
-        'a congruent submission shifted by tolerance/1000 across a multiple of the modulus may be accepted or rejected',
         'LinearComparer relations that hold in one direction only (student constant, expected varying, or the converse) '
         'may or may not earn the linear/offset credit; with no applicable mode (equals=None and a zero side) credit 0 '
         'or a student-facing error',
@@ -482,6 +511,12 @@ def trace_record(r):
 
 
 def parse_summary(text):
+    """'<token> or <token> | <deviation class>' -> (allowed tokens, class or None)"""
+    text, _, why = text.partition(' | ')
+    return parse_tokens(text), (why if why and why != 'none' else None)
+
+
+def parse_tokens(text):
     out = []
     for part in text.split(' or '):
         w = part.split()
@@ -641,7 +676,7 @@ def gen_eigen(rng):
     ns = 1
     c.update(P=[[val([n, n], [m[i][j] for i in range(n) for j in range(n)]), sc(lam[0], lam[1])]] * ns,
              S=[val([n], v, d)] * ns)
-    if kind == 'member' and c['tol'] == 'abs' and rng.random() < 0.3:
+    if kind == 'member' and c['tol'] in ('abs', 'pct') and rng.random() < 0.3 and d in (1, 2, 4):
         c['jit'] = 1
     return c
 
@@ -680,7 +715,7 @@ def gen_span(rng):
         P.append([val([n], u) for u in vs])
         S.append(val([n], v, den))
     c.update(P=P, S=S)
-    if wrong_at is None and c['tol'] == 'abs' and rng.random() < 0.3 and any(x != [0, 0] for x in S[0]['ent']):
+    if wrong_at is None and rng.random() < 0.3 and any(x != [0, 0] for x in S[0]['ent']):
         c['jit'] = 1
     return c
 
@@ -716,7 +751,7 @@ def gen_phase(rng):
     elif var == 'half':
         d = 2 * d
     c.update(P=[[val([n], t)]], S=[val([n], v, d)])
-    if var == 'none' and c['tol'] == 'abs' and rng.random() < 0.3:
+    if var == 'none' and rng.random() < 0.3:
         c['jit'] = 1
     return c
 
